@@ -171,8 +171,10 @@ def run(rep: Report, tier: str) -> None:
 	if okr is None or ok_ is None:
 		raise AnalysisError('SymbolDB._order_keys/_order_keys_recursive vanished')
 	body = [s_ for s_ in okr.node.body if not (isinstance(s_, ast.Expr) and isinstance(s_.value, ast.Constant))]
-	loop_i = next((i for i, s_ in enumerate(body) if isinstance(s_, ast.For) and 'symbol.attrs' in unparse(s_.iter) and '_order_keys_recursive' in unparse(s_)), None)
-	app_i = next((i for i, s_ in enumerate(body) if 'orders.append' in unparse(s_)), None)
+	oparams = okr.params()
+	sym_p, ord_p = (oparams[2], oparams[3]) if len(oparams) > 3 else ('symbol', 'orders')
+	loop_i = next((i for i, s_ in enumerate(body) if isinstance(s_, ast.For) and unparse(s_.iter).endswith('.attrs') and sym_p in unparse(s_.iter) and '_order_keys_recursive' in unparse(s_)), None)
+	app_i = next((i for i, s_ in enumerate(body) if f'{ord_p}.append' in unparse(s_)), None)
 	ro.check(loop_i is not None, 'recurses-into-attrs', okr.where, '_order_keys_recursive no longer walks symbol.attrs recursively at the top level of its body')
 	if loop_i is not None:
 		early = [unparse(s_)[:60] for s_ in body[:loop_i] if any(isinstance(x, ast.Return) for x in ast.walk(s_))]
